@@ -31,6 +31,7 @@ TASK: produce TWO different, independent changes ("a" and "b") to the library's 
   4. is REALISTIC: looks like something a maintainer could plausibly write in a refactor, optimisation, feature addition or bug-fix gone wrong -- not sabotage, no dead code, no magic constants keyed on a test input,
   5. is SUBTLE: it must need something specific to manifest -- an unusual input or boundary value, a particular multi-step sequence of operations, a fault at a particular point, a particular map iteration order / interleaving, or two cooperating sites that each look fine alone. A change that ordinary use of the library would expose at once is NOT wanted.
 Make the two changes different in kind and in location (different functions, preferably different files / different clauses of the property).
+  6. MINIMAL IN SHAPE: confine each change to EXISTING statements of existing functions -- a condition, a constant, an operator, the order of two statements, which variable or field is used, what is returned or assigned, a struct tag, an option value. Do NOT add new functions or methods, new struct fields, new package-level variables or new imports, and do not call library functions that the edited function does not already call. (Changes of that kind were collected in an earlier round; this round is about edits that hide inside code that already exists.)
 
 For each change X in {{a,b}} deliver, under /tmp/seedout/{pid}/X/:
   - patch.diff : output of `git diff` in the worktree with ONLY that change applied (apply cleanly with `git apply` on a clean worktree; only non-test library files changed)
